@@ -6,7 +6,7 @@
 // the distributed type-1 input vector x0; for every life-cycle route of the case (field lcs) and every operation rhs/sol/def/cor
 // the filter is applied twice and the local vector compared after each call with the restriction of the undecomposed result the
 // specification predicts (v1, v2): bit-exact when every sharer count is a power of two (all quantities dyadic, the volume a power of
-// two), else within 64 eps * (largest magnitude of the evaluation, supplied by the specification).
+// two), else within 512 eps * (largest magnitude of the evaluation, supplied by the specification).
 // Routes: none | clone_deep | clone_weak | clone_shallow (returning clone) | clone_into | clone_into_weak | convert_into |
 //         convert_other_into (source of float/unsigned int; dyadic cases only) | move_assign      - the in-place ones start from an
 //         object that holds the previous content loct0 -                and the same through the Global::Filter wrapper on a
@@ -222,7 +222,7 @@ static std::string run_case(const vj::Value& c, const Dist::Comm& comm)
     for(Index i = 0; i < nloc; ++i) if(!(std::fabs(gate.get_freqs()(i) * double(cnt[i]) - 1.0) <= 4.0 * EPS)) fail("gate frequency of local dof " + std::to_string(i) + " is not 1/" + std::to_string(cnt[i]));
   }
   const long long den = c["den"].as_int();
-  Env e{c, comm, gate, fail, me, nloc, den, dyadic ? 0.0 : 64.0 * EPS * double(c["mx"].as_int()) / double(den), dyadic};
+  Env e{c, comm, gate, fail, me, nloc, den, dyadic ? 0.0 : 512.0 * EPS * double(c["mx"].as_int()) / double(den), dyadic};
   const std::string kind = c["f"]["kind"].as_str();
   if(kind == "mean") run_routes<TMean>(e, "Global::MeanFilter");
   else if(kind == "unit") run_routes<TUnit>(e, "UnitFilter");
